@@ -59,6 +59,8 @@ pub static LARGEST: AtomicUsize = AtomicUsize::new(0);
 pub static A1_ALLOCS: AtomicUsize = AtomicUsize::new(0);
 /// align-1 blocks allocated during tracked calls (not panic noise) and not yet freed
 pub static A1_TRACKED_LIVE: AtomicUsize = AtomicUsize::new(0);
+/// bytes in those blocks
+pub static A1_TRACKED_BYTES: AtomicUsize = AtomicUsize::new(0);
 static mut STATE: State = State {
     blocks: [None; MAX_BLOCKS],
     nblocks: 0,
@@ -137,6 +139,7 @@ unsafe impl GlobalAlloc for Ledger {
             LARGEST.fetch_max(size, Ordering::Relaxed);
             A1_ALLOCS.fetch_add(1, Ordering::Relaxed);
             A1_TRACKED_LIVE.fetch_add(1, Ordering::Relaxed);
+            A1_TRACKED_BYTES.fetch_add(size, Ordering::Relaxed);
         }
         unlock();
         user as *mut u8
@@ -180,6 +183,7 @@ unsafe impl GlobalAlloc for Ledger {
                 }
                 if b.tracked {
                     A1_TRACKED_LIVE.fetch_sub(1, Ordering::Relaxed);
+                    A1_TRACKED_BYTES.fetch_sub(b.size, Ordering::Relaxed);
                 }
                 s.nblocks -= 1;
                 s.blocks[i] = s.blocks[s.nblocks];
